@@ -4,6 +4,7 @@
 -/
 import FBV.Drv.Wire
 import FBV.Spec.SatT1
+import FBV.Spec.SatV
 namespace FBV.DrvT1
 open FBV FBV.Wire
 
@@ -148,5 +149,50 @@ def checkT0 (pre : List String) (postT : List String) : Option (List String) := 
     v := "UNSAT C01" :: v
   if !(ip.mem.length == n && ip.free + wantRd.length == n) then v := "UNSAT C03" :: v
   return v
+
+def slices? (s : String) : Option (List (List Byte)) :=
+  if s == "_" then some [] else (s.splitOn ",").mapM unhex?
+
+/-- `TV <N> <mem> <ri> <wi> | wv <slices> | <cls> <n> <allocs> | <post>` and
+    `TV <N> <mem> <ri> <wi> | rv <lens> | <cls> <n> <allocs> <dests> | <post>`: the vectored calls of the Read / Write trait
+    surface.  The model is the trait's default implementation (`stepWV` / `stepRV`); a disagreement with it is drift
+    only (an override may legitimately gather / scatter), the verdicts come from the predicates `Sat_WV` / `Sat_RV`,
+    which `C01.stepWV_sat` / `C01.stepRV_sat` prove of the model -/
+def checkTV (oc : Bool) (pre opT outT postT : List String) : Option (List String × Bool) := do
+  let (mem, ri, wi) ← match pre with
+    | [_n, m, ri, wi] => do pure ((← unhex? m), (← ri.toNat?), (← wi.toNat?))
+    | _ => none
+  let b : Buf := { mem := mem, ri := ri, wi := wi }
+  if postT == ["X"] then return (["UNSAT C04", "UNSAT C01", "UNSAT C03", "DRIFT"], true)
+  let ip ← obs? postT
+  match opT, outT with
+  | ["wv", sl], [c, n, a] =>
+    let slices ← slices? sl
+    let cls ← cls? c
+    let allocs ← a.toNat?
+    let ns ← if n == "-" then some [] else n.toNat?.map (fun k => [k])
+    let io : Out := { cls := cls, nums := ns }
+    let (b', mo) := stepWV oc b slices
+    let mut v : List String := []
+    if !(mo.cls == io.cls && mo.nums == io.nums && b'.obs == ip) then v := "DRIFT" :: v
+    if !Sat_WV b slices io ip then
+      v := (if cls == .panic then "UNSAT C04" else "UNSAT C01") :: "UNSAT C03" :: v
+    if cls == .ok && allocs != 0 then v := "UNSAT C18" :: v
+    return (v, !slices.flatten.isEmpty)
+  | ["rv", ls], [c, n, a, ds] =>
+    let lens ← nums? ls
+    let dests ← slices? ds
+    let cls ← cls? c
+    let allocs ← a.toNat?
+    let ns ← if n == "-" then some [] else n.toNat?.map (fun k => [k])
+    let io : Out := { cls := cls, nums := ns }
+    let (b', mo) := stepRV oc b lens
+    let mut v : List String := []
+    if !(mo.cls == io.cls && mo.nums == io.nums && b'.obs == ip && destsOf lens mo.bytes == dests) then v := "DRIFT" :: v
+    if !Sat_RV b lens dests io ip then
+      v := (if cls == .panic then "UNSAT C04" else "UNSAT C01") :: "UNSAT C03" :: v
+    if cls == .ok && allocs != 0 then v := "UNSAT C18" :: v
+    return (v, b.len != 0 && lens.any (· != 0))
+  | _, _ => none
 
 end FBV.DrvT1
